@@ -17,7 +17,8 @@ import (
 
 type Case struct {
 	ID   int     `json:"id"`
-	Kind string  `json:"kind"` // issorted | heap
+	Kind string  `json:"kind"` // issorted | heap | sort
+	Alg  int     `json:"alg,omitempty"` // sort: 0 SortMerge, 1 SortQuick
 	Lt   int     `json:"lt"`
 	L    []int64 `json:"l,omitempty"`
 	Ops  []HOp   `json:"ops,omitempty"`
@@ -165,9 +166,10 @@ func coqPops(p []*int64) string {
 func main() {
 	run := kit.Start()
 	run.Header = "From FunV Require Import Base.Tac Model.SortSpec Corr.C17_corr."
+	run.ShardSize = 200
 	run.Footer = "Definition M := Eval vm_compute in mismatches cases.\nPrint M."
 	run.CaseType = "case"
-	run.Rule = "IsSorted: random lists over 10 shape families (sorted, reversed, out-of-order pair first/last, negatives, constant, random) x 6 comparison functions; Heap: random push/pop sequences x 6 comparison functions. distinct = distinct (kind, lt, input); non-trivial = length >= 2 (IsSorted) or at least one pop after a push (Heap)"
+	run.Rule = "IsSorted: random lists over 10 shape families (sorted, reversed, out-of-order pair first/last, negatives, constant, random) x 6 comparison functions; Heap: random push/pop sequences x 6 comparison functions; Sort: SortMerge (6 comparison functions) / SortQuick (5 strict weak orders) on the same list shapes, followed by a pop and a push on the sorted list. distinct = distinct (kind, alg, lt, input); non-trivial = length >= 2 (IsSorted, Sort) or at least one pop after a push (Heap)"
 
 	if run.Replay != "" {
 		var c Case
@@ -188,6 +190,14 @@ func main() {
 		{Kind: "issorted", Lt: 0, L: []int64{1, 2}},
 		{Kind: "issorted", Lt: 0, L: []int64{}},
 		{Kind: "issorted", Lt: 1, L: []int64{5}},
+		{Kind: "sort", Alg: 0, Lt: 0, L: []int64{3, 1, 2}},
+		{Kind: "sort", Alg: 1, Lt: 0, L: []int64{3, 1, 2}},
+		{Kind: "sort", Alg: 0, Lt: 0, L: []int64{}},
+		{Kind: "sort", Alg: 0, Lt: 1, L: []int64{5}},
+		{Kind: "sort", Alg: 1, Lt: 2, L: []int64{5, 2, 8, 3, 0, 6}},
+		{Kind: "sort", Alg: 0, Lt: 2, L: []int64{5, 2, 8, 3, 0, 6}},
+		{Kind: "sort", Alg: 0, Lt: 3, L: []int64{2, 1}},
+		{Kind: "sort", Alg: 0, Lt: 5, L: []int64{1, 1, 2}},
 		{Kind: "heap", Lt: 0, Ops: []HOp{{Push: true, V: 3}, {Push: true, V: 1}, {Push: true, V: 2}, {}, {Push: true, V: 0}, {}, {}, {}, {}}},
 	}
 	for _, c := range corpus {
@@ -200,8 +210,15 @@ func main() {
 		r := run.Rand.Fork()
 		c := Case{ID: id, Lt: r.Intn(6)}
 		id++
-		if r.Chance(1, 2) {
+		if x := r.Intn(5); x < 2 {
 			c.Kind = "issorted"
+			c.L = genList(r)
+		} else if x < 4 {
+			c.Kind = "sort"
+			c.Alg = r.Intn(2)
+			if c.Alg == 1 {
+				c.Lt = r.Intn(nStrict) // sort.SliceStable with a non-strict lt is algorithm-specific
+			}
 			c.L = genList(r)
 		} else {
 			c.Kind = "heap"
@@ -246,6 +263,8 @@ func execCase(run *kit.Run, c Case, verbose bool) {
 		run.Count(fmt.Sprintf("issorted/result=%v", got))
 		term := fmt.Sprintf("CIsSorted %s %s %s %s", kit.ZI(c.ID), kit.ZI(c.Lt), kit.ZList(c.L), kit.Bool(got))
 		run.Case(c.ID, c, term, fmt.Sprintf("s|%d|%v", c.Lt, c.L), len(c.L) >= 2)
+	case "sort":
+		execSort(run, c, verbose)
 	case "heap":
 		obs, _ := runHeap(c)
 		if verbose {
@@ -325,6 +344,160 @@ func execCase(run *kit.Run, c Case, verbose bool) {
 		term := fmt.Sprintf("CHeap %s %s %s %s %s", kit.ZI(c.ID), kit.ZI(c.Lt), coqOps(c.Ops), coqPops(obs.Pops), kit.ZList(obs.Final))
 		run.Case(c.ID, c, term, fmt.Sprintf("h|%d|%v", c.Lt, c.Ops), nontriv)
 	}
+}
+
+// execSort runs SortMerge / SortQuick on the real dt.List, then a pop and a push on the sorted
+// list.  Oracle (independent of the model): permutation of the same elements, no element lt its
+// predecessor (strict weak orders), SortQuick keeps equal elements in their previous order,
+// every element still In(l), walks/Len consistent, pop and push work afterwards.
+func execSort(run *kit.Run, c Case, verbose bool) {
+	lt := ltOf(c.Lt)
+	name := []string{"SortMerge", "SortQuick"}[c.Alg&1]
+	l := &dt.List[int64]{}
+	for _, v := range c.L {
+		l.PushBack(v)
+	}
+	before := []*dt.Element[int64]{}
+	for e := l.Front(); e.Ok() && len(before) <= len(c.L); e = e.Next() {
+		before = append(before, e)
+	}
+	bad, cls := "", ""
+	fail := func(k, m string) {
+		if bad == "" {
+			bad, cls = m, k
+		}
+	}
+	func() {
+		defer func() {
+			if p := recover(); p != nil {
+				fail("panic", fmt.Sprint("panic: ", p))
+			}
+		}()
+		if c.Alg&1 == 0 {
+			l.SortMerge(lt)
+		} else {
+			l.SortQuick(lt)
+		}
+	}()
+	walk := func(fwd bool) (vs []int64, ps []*dt.Element[int64]) {
+		vs = []int64{}
+		e := l.Front()
+		if !fwd {
+			e = l.Back()
+		}
+		for i := 0; i < 2*l.Len()+4 && e.Ok(); i++ {
+			vs = append(vs, e.Value())
+			ps = append(ps, e)
+			if fwd {
+				e = e.Next()
+			} else {
+				e = e.Previous()
+			}
+		}
+		return
+	}
+	obs := []int64{}
+	lp := func(vs []int64) { obs = append(obs, int64(len(vs))); obs = append(obs, vs...) }
+	var f, b []int64
+	var fp []*dt.Element[int64]
+	if bad == "" {
+		f, fp = walk(true)
+		b, _ = walk(false)
+		lp(f)
+		lp(b)
+		obs = append(obs, int64(l.Len()))
+		allIn := int64(1)
+		for _, e := range fp {
+			if !e.In(l) {
+				allIn = 0
+			}
+		}
+		obs = append(obs, allIn)
+		// oracle
+		idx := map[*dt.Element[int64]]int{}
+		for i, e := range before {
+			idx[e] = i
+		}
+		seen := map[int]bool{}
+		if len(fp) != len(before) {
+			fail("perm", fmt.Sprintf("%d elements before, forward walk has %d after (%v -> %v)", len(before), len(fp), c.L, f))
+		}
+		for _, e := range fp {
+			i, ok := idx[e]
+			if !ok || seen[i] {
+				fail("perm", fmt.Sprintf("result %v is not a permutation of the elements of %v", f, c.L))
+			}
+			seen[i] = true
+		}
+		if len(b) != len(f) {
+			fail("usable", fmt.Sprintf("backward walk %v is not the reverse of the forward walk %v", b, f))
+		} else {
+			for i := range f {
+				if f[i] != b[len(b)-1-i] {
+					fail("usable", fmt.Sprintf("backward walk %v is not the reverse of the forward walk %v", b, f))
+				}
+			}
+		}
+		if c.Lt < nStrict {
+			for i := 0; i+1 < len(f); i++ {
+				if lt(f[i+1], f[i]) {
+					fail("order", fmt.Sprintf("%v -> %v: element %d is lt its predecessor", c.L, f, i+1))
+				}
+			}
+			if c.Alg&1 == 1 && bad == "" {
+				for i := 0; i+1 < len(fp); i++ {
+					if !lt(f[i], f[i+1]) && idx[fp[i]] > idx[fp[i+1]] {
+						fail("stable", fmt.Sprintf("%v -> %v: equal elements at %d,%d changed their relative order", c.L, f, i, i+1))
+					}
+				}
+			}
+		}
+		if l.Len() != len(c.L) {
+			fail("usable", fmt.Sprintf("Len = %d after sorting %d elements", l.Len(), len(c.L)))
+		}
+		if allIn == 0 {
+			fail("usable", "an element of the sorted list does not report In(list)")
+		}
+		// the list must stay usable: pop the front, push a value
+		func() {
+			defer func() {
+				if p := recover(); p != nil {
+					fail("usable", fmt.Sprint("panic after sort: ", p))
+				}
+			}()
+			e := l.PopFront()
+			obs = append(obs, map[bool]int64{false: 0, true: 1}[e.Ok()], e.Value())
+			if len(f) > 0 && (!e.Ok() || e != fp[0] || e.In(l)) {
+				fail("usable", fmt.Sprintf("PopFront after the sort did not return the first element (ok=%v)", e.Ok()))
+			}
+			l.PushBack(77)
+			f2, _ := walk(true)
+			b2, _ := walk(false)
+			lp(f2)
+			lp(b2)
+			obs = append(obs, int64(l.Len()))
+			want := append([]int64{}, f...)
+			if len(want) > 0 {
+				want = want[1:]
+			}
+			want = append(want, 77)
+			if fmt.Sprint(f2) != fmt.Sprint(want) || l.Len() != len(want) || len(b2) != len(want) {
+				fail("usable", fmt.Sprintf("after pop+push the list walks %v / %v with Len %d, expected %v", f2, b2, l.Len(), want))
+			}
+		}()
+	}
+	if verbose {
+		fmt.Printf("%s(lt=%d, %v) -> %v  obs=%v  oracle: %q\n", name, c.Lt, c.L, f, obs, bad)
+	}
+	if bad != "" {
+		run.OracleFail(c.ID, "C17:"+name+":"+cls, bad, c, obs)
+	}
+	run.Count("sort/" + name + "/len" + bucket(len(c.L)))
+	term := ""
+	if cls != "panic" {
+		term = fmt.Sprintf("CSort %s %s %s %s %s", kit.ZI(c.ID), kit.ZI(c.Alg&1), kit.ZI(c.Lt), kit.ZList(c.L), kit.ZList(obs))
+	}
+	run.Case(c.ID, c, term, fmt.Sprintf("q|%d|%d|%v", c.Alg, c.Lt, c.L), len(c.L) >= 2)
 }
 
 func bucket(n int) string {
